@@ -826,7 +826,9 @@ def _pick(rng, strs):
 
 # what stands for a "regular" header in the sequence cases: besides an arbitrary field, the regular fields a receiver
 # treats specially (so that "a regular header was seen" must not depend on which regular header it was)
-REGULARS = [(b"x-r", b"1"), (b"content-length", b"0"), (b"transfer-encoding", b"trailers"), (b"cookie", b"a=b")]
+REGULARS = [(b"x-r", b"1"), (b"content-length", b"0"), (b"transfer-encoding", b"trailers"), (b"cookie", b"a=b"),
+            # names an implementation may give a meaning of their own (HTTP/1.1 heritage): none of them stands in for a pseudo-header
+            (b"host", b"localhost"), (b"te", b"trailers"), (b"connection", b"close"), (b"content-type", b"text/plain")]
 
 
 def expand_sequence(seq, kind, completed, variant=0, empty_occurrence=None):
